@@ -66,3 +66,119 @@ prop(
     design_ref="DESIGN.md section 4 C01",
 )
 
+
+
+PKG_SCOPE = "model files of the package are hand-written transcriptions tied by the package's lane (see docs/pkg-*.md for the Rust line <-> Lean def table)"
+
+prop(
+    "C03",
+    ["LolHtml.Thm.C03_Sim"],
+    [{"lane": "hash", "n_quick": 3000, "n_thorough": 40000},
+     {"lane": "lex", "n_quick": 3000, "n_thorough": 100000}],
+    "lane hash: names over the hash alphabet, table names with case variants, length-limit and sentinel neighbourhood, bad bytes; "
+    + LEX_RULE,
+    ["the real WHATWG tree builder is NOT modelled: the expected namespaces / text types are the author's reading of WHATWG 13.2.6, validated on witnesses against html5ever (lane nsprobe), not proved",
+     "Ref tables (lean/LolHtml/Ref/Tags.lean) are hand-reviewed against the standard",
+     MODEL_SCOPE],
+    level_text=("Lean 4 theorems over the translated tag tables and the simulator model: generated tables = reviewed reference "
+                "(C03_tags_match_reference, kernel decide), every table hash is the hash of its name and hash equality is name "
+                "equality for letter-initial names (C03_hash_injective, induction), exact characterisation of unhashable names, "
+                "ambiguity-guard = recursive specification with the exact refusal condition (C03_guard_spec, C03_guard_err_iff), "
+                "simulator invariants for all tag sequences (stack never empty, cdata flag = foreign namespace, strict run = "
+                "non-strict run when accepted), and the expected namespace at every tag of every derivation of a well-nested "
+                "foreign-content grammar (C03_foreign_grammar, C03_foreign_doc), with proved counter-examples for the grammar's "
+                "side conditions. PARTIAL: equality with a real tree builder on tag soup is not a theorem."),
+    level_note=("Trusted: Lean kernel; translators; the reviewed Ref tables; the model of the simulator (tied by lanes lex/hash). "
+                "Not covered: the 23 insertion modes of the real tree builder; tokenizer-table conformance to WHATWG 13.2.5 "
+                "(reference table for the DSL still to be added)."),
+    technique="Lean 4 proof (kernel-evaluated table obligations + induction over tag sequences / grammar derivations) + correspondence lanes",
+    design_ref="DESIGN.md section 4 C03",
+)
+
+prop(
+    "C04",
+    ["LolHtml.Thm.C04_Pure"],
+    [{"lane": "selpure", "n_quick": 3000, "n_thorough": 40000}],
+    "lane selpure: nth a b i triples incl. the wrap zone, six attribute operators x case flags x namespaces x empty operands, id/class/exists on attribute lists; driven through the public HtmlRewriter API",
+    ["only the leaf functions of the selector engine are covered so far (nth index test, attribute operators, id/class); the AST -> program -> VM refinement is package selvm (pending)",
+     PKG_SCOPE],
+    level_text=("Lean 4 theorems: NthChild::has_index on all i32 triples equals the CSS an+b definition exactly when "
+                "-2^31 <= i-b < 2^31 (C04_nth) with an exact characterisation outside (C04_nth_wrap), never panics; each "
+                "of the six attribute operators equals its CSS definition on all byte strings in both case modes, exactly "
+                "except an empty operand for ^= $= ~= (C04_attr_ops_partial + proved counter-examples); case-mode selection; "
+                "first-duplicate lookup for [name], #id, .class. PARTIAL until the VM refinement lands."),
+    level_note="Trusted: Lean kernel; model of ast.rs/attribute_matcher.rs/compiler.rs (attribute half), tied by lane selpure through the public API.",
+    technique="Lean 4 proof (bit-vector / integer arithmetic, list induction) + correspondence lane",
+    design_ref="DESIGN.md section 4 C04",
+)
+
+prop(
+    "C05",
+    ["LolHtml.Thm.C05_Scope"],
+    [{"lane": "scope", "n_quick": 2000, "n_thorough": 10000}],
+    "lane scope: tag-event scripts (unclosed, mis-nested, void, foreign self-closing, removed content) x handler registrations (element/text/comments/end-tag/document) x cuts, real HtmlRewriter with logging handlers vs the model",
+    ["the matcher is an arbitrary function from start tags to sets of registered match ids (WfEvents); that the VM returns only registered ids is C04's",
+     "handler/memory errors, ESI tags, meta-charset handler id shift are not modelled", PKG_SCOPE],
+    level_text=("Lean 4 theorems, for every handler script, registration, event list and matcher: the controller model refines a "
+                "reference scope specification (C05_refines), user counts equal the number of open matched elements "
+                "(C05_refcount), text/comment/doctype delivery iff in scope (C05_scope_*), per-token order = registration order "
+                "with selector-scoped first (C05_order), end-tag closures run exactly once at the closing end tag "
+                "(C05_end_tag_*), end handlers once after all input (C05_end_once), no counter underflow (C05_no_panic)."),
+    level_note="Trusted: Lean kernel; model of handlers_dispatcher.rs / rewrite_controller.rs tied by lane scope.",
+    technique="Lean 4 proof (refinement to an abstract scope spec by invariant) + correspondence lane",
+    design_ref="DESIGN.md section 4 C05",
+)
+
+prop(
+    "C08",
+    ["LolHtml.Thm.C08_Escape"],
+    [{"lane": "esc", "n_quick": 3000, "n_thorough": 30000}],
+    "lane esc: body text / attribute values / comment text / attribute names / tag names biased to <>&\"'-!/= whitespace NUL comment terminators non-BMP unmappable; utf-8 and x-user-defined",
+    ["theorems are for UTF-8 documents (identity codec); other encodings are exercised by the lane and the re-tokenising oracle only",
+     "escape maps, reject lists and closing sequences are re-extracted from the Rust text on every run (translate/consts2lean.py); 20 side-conditions by decide", PKG_SCOPE],
+    level_text=("Lean 4 theorems on the generated constants: escaped body text contains no < > and only complete entities and "
+                "decodes back (C08_body_no_markup), is one data-state run (C08_body_text_run); attribute values contain no "
+                "double quote; set_text accepts iff the WHATWG comment machine ends exactly at the final --> (C08_comment_iff, "
+                "necessary and sufficient); accepted tag/attribute names read back whole and each rejected byte splits a name "
+                "(C08_tag_name_iff, C08_attr_name_*); an accepted attribute re-parses as exactly one attribute "
+                "(C08_attribute_reads_back); setters leave the token unchanged on error (C08_reject_unchanged_*)."),
+    level_note="Trusted: Lean kernel; consts translator; small specs of the WHATWG comment / tag-name / attribute states written for this package.",
+    technique="Lean 4 proof (list induction; decidable side-conditions on translated constants) + correspondence lane + re-tokenising oracle",
+    design_ref="DESIGN.md section 4 C08",
+)
+
+prop(
+    "C10",
+    ["LolHtml.Thm.C10_Memory"],
+    [{"lane": "mem", "n_quick": 3000, "n_thorough": 20000},
+     {"lane": "memts", "n_quick": 2000, "n_thorough": 10000},
+     {"lane": "memrw", "n_quick": 600, "n_thorough": 6000, "impl_only": True}],
+    "lane mem: op sequences on the real Arena + LimitedVec<T> (item sizes 1/8/7/24/512) sharing one limiter; memts: TransformStream write protocol; memrw (impl only): limit sweeps over buffer-growing inputs on HtmlRewriter/TransformStream",
+    ["prealloc <= M and prealloc <= isize::MAX (outside: finding F5)", "Vec::try_reserve_exact yields exactly the requested capacity; the allocator does not fail",
+     "memory that the limiter is never told about (element-name copies in the open-element stack, decoder-held bytes, attribute outlines) is outside the model: see known findings", PKG_SCOPE],
+    level_text=("Lean 4 theorems over arbitrary operation lists: usage = arena.cap + vec.cap*itemSize + failed charges "
+                "(C10_accounting), while all ops succeeded usage <= M hence retained input <= M (C10_bound, C10_bound_held), "
+                "the exceeding op returns the error and never panics incl. checked_mul overflow (C10_error_not_panic), success "
+                "is monotone in M with identical states (C10_monotone), results are a function of (M, prealloc, itemSize, ops); "
+                "for the TransformStream write protocol: bytes in = bytes out + retained, retained <= M (C10_write_retention)."),
+    level_note="Trusted: Lean kernel; model of memory/*.rs and the write() buffer protocol tied by lanes mem/memts (hooks VerifArena/VerifLimitedVec).",
+    technique="Lean 4 proof (invariant by induction over operation lists) + correspondence lanes + limit-sweep oracle",
+    design_ref="DESIGN.md section 4 C10",
+)
+
+prop(
+    "C13",
+    ["LolHtml.Thm.C13_Encoding"],
+    [{"lane": "enc", "n_quick": 3000, "n_thorough": 21000}],
+    "lane enc: decoder feeds with arbitrary splits (all 36 encodings on the implementation side; UTF-8, windows-1252, ISO-8859-7 on the model side), text > 1 KiB, malformed bytes, encoder, UTF-8 resync, meta charset positions, non-ASCII-compatible refusal",
+    ["encoding_rs is assumed to satisfy the codec laws (checked by the lane against whole-buffer decode/encode, not proved)",
+     "decoder buffer >= 4, encoder buffers >= 14 (real: 1024 / 63 / 4096)", PKG_SCOPE],
+    level_text=("Lean 4 theorems for every lawful codec, buffer size and split: concatenated handler text = whole decode, exactly "
+                "one last_in_text_node chunk, ranges ordered and inside the node (C13_decoder); fast path = slow path "
+                "(C13_fastpath); encoder output = per-scalar encoding or NCR, independent of buffer sizes (C13_encoder); UTF-8 "
+                "resync safety (C13_resync_safe/rejects, liveness partial); meta charset: at most one change, effective after "
+                "the tag, sink notified first (C13_meta); three codec instances proved lawful. PARTIAL: encoding_rs itself."),
+    level_note="Trusted: Lean kernel; model of text_decoder.rs / text_encoder.rs / flush_encoding_change tied by lane enc (hook VerifTextDecoder).",
+    technique="Lean 4 proof (abstract codec laws + induction over feeds) + correspondence lane + whole-buffer encoding_rs oracle",
+    design_ref="DESIGN.md section 4 C13",
+)
